@@ -302,6 +302,9 @@ class Transformer(ast.NodeTransformer):
         if isinstance(f, ast.Attribute) and isinstance(f.value, ast.Constant) \
                 and isinstance(f.value.value, (bytes, str)) and f.attr in ("join", "format"):
             f.value = ast.copy_location(_call("VC_K", f.value), f.value)
+        elif isinstance(f, ast.Attribute) and f.attr == "join" and len(node.args) == 1 and not node.keywords:
+            # <expr>.join(items): the receiver may be a bytes value computed at run time (b("").join(...))
+            return ast.copy_location(_call("VC_join", f.value, node.args[0]), node)
         return node
 
     # -- T5 -----------------------------------------------------------------------------
@@ -638,6 +641,7 @@ class Loader:
         from . import abscoll
         g["VC_map"] = abscoll.vc_map
         g["VC_strmod"] = models.m_strmod
+        g["VC_join"] = models.m_join
         self.modules[fullname] = mod
         self.sources[fullname] = (path, hashlib.sha256(src).hexdigest(), tr.loops)
         try:
